@@ -533,3 +533,97 @@ StandIn("c11_history_vs_fresh_process", _c11_cases, _c11_check,
               "with varying kernels, classifiers, generators, zonal stats, ...) executed in one long-lived process (history accumulates "
               "over all cases) and compared bit-for-bit, call by call, with a fresh interpreter running that call alone under "
               "1/4/16 Numba/Dask threads; JIT on")
+
+
+# =========================================================================== C19: distance strings, UNITS, spherical triangle
+def _c19_cases(rng, tier):
+    units = {"": 1.0, "m": 1.0, "meter": 1.0, "meters": 1.0, "km": 1000.0, "kilometer": 1000.0, "kilometers": 1000.0,
+             "ft": 0.3048, "foot": 0.3048, "feet": 0.3048, "ml": 1609.344, "mls": 1609.344, "miles": 1609.344}
+    nums = ["1", "10", "0.5", ".5", "3.25", "100", "0", "-1", "-0.5", "1e3", "abc", ""]
+    while True:
+        kind = rng.choice(["string", "string", "sphere", "kernel"])
+        if kind == "string":
+            n = rng.choice(nums)
+            u = rng.choice(list(units) + ["parsec", "k m", "KM", "Meters"])
+            sp = rng.choice(["", " ", "  "]) if u else ""
+            yield {"kind": "string", "text": n + sp + u, "num": n, "unit": u}
+        elif kind == "sphere":
+            pts = [(rng.choice([-180.0, 180.0, 0.0, 179.9, -179.9, rng.uniform(-180, 180)]),
+                    rng.choice([-90.0, 90.0, 0.0, 89.9, rng.uniform(-90, 90)])) for _ in range(3)]
+            yield {"kind": "sphere", "pts": pts}
+        else:
+            yield {"kind": "kernel", "cx": rng.choice([1.0, 0.5, 2.0, 10.0]), "cy": rng.choice([1.0, 0.5, 3.0, 10.0]),
+                   "outer": rng.choice([1, 2, 3.5, 5, 10, 25]), "inner": rng.choice([0.5, 1, 2, 3])}
+
+
+def _c19_check(case):
+    import importlib
+    conv = importlib.import_module("xrspatial.convolution")
+    prox = importlib.import_module("xrspatial.proximity")
+    if case["kind"] == "string":
+        units = {"m": 1.0, "meter": 1.0, "meters": 1.0, "km": 1000.0, "kilometer": 1000.0, "kilometers": 1000.0,
+                 "ft": 0.3048, "foot": 0.3048, "feet": 0.3048, "ml": 1609.344, "mls": 1609.344, "miles": 1609.344}
+        n, u = case["num"], case["unit"].lower().replace(" ", "")
+        try:
+            val = float(n)
+            simple = n not in ("1e3",) and n != ""
+        except ValueError:
+            val, simple = None, False
+        expect_ok = simple and val is not None and val > 0 and (u == "" or u in units) and not n.startswith("-")
+        try:
+            got = conv._get_distance(case["text"])
+        except ValueError:
+            got = None
+        except Exception as e:
+            return "_get_distance(%r) raised %r (only ValueError is a rejection)" % (case["text"], e)
+        if expect_ok:
+            exp = val * (units[u] if u else 1.0)
+            if got is None or abs(got - exp) > 1e-9 * exp:
+                return "_get_distance(%r) = %r, expected %r metres" % (case["text"], got, exp)
+        else:
+            if got is not None and (val is None or val <= 0 or (u and u not in units)):
+                return "_get_distance(%r) = %r but the distance is non-positive or malformed and must be rejected" % (case["text"], got)
+        return None
+    if case["kind"] == "sphere":
+        (a, b, c) = case["pts"]
+        d = lambda p, q: float(prox.great_circle_distance(p[0], q[0], p[1], q[1]))
+        dab, dbc, dac, dba = d(a, b), d(b, c), d(a, c), d(b, a)
+        half = math.pi * 6378137
+        if abs(dab - dba) > 1e-6:
+            return "great circle not symmetric: %r vs %r for %r %r" % (dab, dba, a, b)
+        if dab > half * (1 + 1e-12):
+            return "great circle distance %r exceeds half the circumference" % dab
+        if dac > dab + dbc + 1e-3:
+            return "spherical triangle inequality violated: d(a,c)=%r > %r + %r for %r" % (dac, dab, dbc, case["pts"])
+        if d(a, a) != 0.0:
+            return "d(a,a) != 0"
+        return None
+    ko = conv.circle_kernel(case["cx"], case["cy"], case["outer"])
+    if ko.shape[0] % 2 != 1 or ko.shape[1] % 2 != 1:
+        return "circle_kernel has even shape %s" % (ko.shape,)
+    if not (np.array_equal(ko, ko[::-1, :]) and np.array_equal(ko, ko[:, ::-1])):
+        return "circle_kernel not symmetric under axis flips"
+    hw, hh = int(case["outer"] / case["cx"]), int(case["outer"] / case["cy"])
+    if ko.shape != (2 * hh + 1, 2 * hw + 1):
+        return "circle_kernel shape %s, expected %s" % (ko.shape, (2 * hh + 1, 2 * hw + 1))
+    for i in range(ko.shape[0]):
+        for j in range(ko.shape[1]):
+            e = 1.0 if ((j - hw) * hh) ** 2 + ((i - hh) * hw) ** 2 <= (hw * hh) ** 2 else 0.0
+            if ko[i, j] != e:
+                return "circle_kernel[%d,%d] = %r, ellipse equation gives %r" % (i, j, ko[i, j], e)
+    if case["inner"] <= case["outer"]:
+        an = conv.annulus_kernel(case["cx"], case["cy"], case["outer"], case["inner"])
+        if an.min() < 0:
+            return "annulus_kernel has a negative entry"
+        ki = conv.circle_kernel(case["cx"], case["cy"], case["inner"])
+        pr, pc = (ko.shape[0] - ki.shape[0]) // 2, (ko.shape[1] - ki.shape[1]) // 2
+        pad = np.zeros_like(ko)
+        pad[pr:pr + ki.shape[0], pc:pc + ki.shape[1]] = ki
+        if not np.array_equal(an, ko - pad):
+            return "annulus_kernel is not outer minus the centred inner circle"
+    return None
+
+
+StandIn("c19_distance_strings_and_sphere", _c19_cases, _c19_check,
+        bound="generated distance strings (numbers x units x spacing x malformed forms), random point triples on the sphere incl. "
+              "poles / antimeridian, circle / annulus kernels for radii <= 25 cells")
